@@ -197,6 +197,9 @@ def numbering():
         [{'statement': 'B', 'run_no_start_from': 1}, {'statement': 'B'}, {'run_no_start_from': 2}],
         [{'trace_threads': True}, {'statement': 'C', 'trace_modules': True}, {}],
         [{'statement': 'A'}, {'statement': 'A', 'run_no_start_from': 3}, {'run_no_start_from': 3}],
+        # tracing options switched on and off again, together and one at a time
+        [{'trace_threads': True, 'trace_modules': True}, {'trace_threads': False}, {'trace_modules': False}, {'trace_threads': True}],
+        [{'trace_modules': True}, {'trace_modules': False, 'statement': 'B'}, {'trace_threads': False, 'trace_modules': True}],
     ]
     for i, seq in enumerate(seqs):
         steps = START + one_run()
@@ -213,7 +216,7 @@ def ksweeps(ks=range(0, 16)):
     for k in ks:
         for frm in ('initialized', 'finished'):
             pre = START + (one_run() if frm == 'finished' else [])
-            for api2 in ('run',):
+            for api2 in ('run', 'run_session', 'run_continue_and_wait'):
                 steps = pre + [['call', 'A', 'reset', RESET_OPTS[0]], ['hops', k], ['call', 'B', api2], settle(0.3)] + after_overlap()
                 out.append(S(steps, dict(family='ksweep', first=f'reset-from-{frm}', second=api2, k=k)))
         steps = START + [['call', 'A', 'run'], ['hops', k], ['call', 'B', 'run'], settle(0.3)] + after_overlap()
